@@ -285,3 +285,39 @@ def optional_truthiness(fn_node: ast.AST):
         for h in hits:
             found[id(h)] = (h.id, risky[h.id], h)
     return list(found.values())
+
+
+def iterables_consumed_twice(fn_node: ast.AST):
+    """[(name, what it is, [lines])]: a parameter annotated `Iterable[..]`, or a local that holds the result of calling a
+    parameter annotated `Callable[.., Iterable[..]]`, that is consumed more than once (loop, comprehension, or handed to
+    a call).  A generator / map / filter object is empty the second time round."""
+    a = fn_node.args
+    iters, producers = set(), set()
+    for arg in a.posonlyargs + a.args + a.kwonlyargs:
+        if arg.annotation is None:
+            continue
+        t = ast.unparse(arg.annotation)
+        if t.startswith("Iterable"):
+            iters.add(arg.arg)
+        elif t.startswith("Callable") and "Iterable" in t.rsplit(",", 1)[-1]:
+            producers.add(arg.arg)
+    held = {}
+    for n in ast.walk(fn_node):
+        if isinstance(n, ast.Assign) and len(n.targets) == 1 and isinstance(n.targets[0], ast.Name) and isinstance(n.value, ast.Call) and isinstance(n.value.func, ast.Name) and n.value.func.id in producers:
+            held[n.targets[0].id] = n.value.func.id
+    out = []
+    for name in sorted(iters | set(held)):
+        rebound = [n for n in ast.walk(fn_node) if isinstance(n, ast.Assign) and any(isinstance(t, ast.Name) and t.id == name for t in n.targets)]
+        if name in iters and rebound:
+            continue  # `nodes = list(nodes)`: from then on it is a list
+        cons = []
+        for n in ast.walk(fn_node):
+            if isinstance(n, (ast.For, ast.comprehension)) and isinstance(n.iter, ast.Name) and n.iter.id == name:
+                cons.append(getattr(n, "lineno", n.iter.lineno))
+            elif isinstance(n, ast.Call) and not (isinstance(n.func, ast.Name) and n.func.id in ("isinstance", "type", "id")):
+                for x in list(n.args) + [k.value for k in n.keywords]:
+                    if isinstance(x, ast.Name) and x.id == name:
+                        cons.append(n.lineno)
+        if len(cons) > 1:
+            out.append((name, "parameter annotated Iterable" if name in iters else f"result of the callback `{held[name]}`", sorted(cons)))
+    return out
